@@ -12,7 +12,7 @@ R6  core::lt/leq/eq/geq/gt route to the namesake builders of the theory selected
 """
 from ..expr import LocalEnv, canon, show
 from ..facts import AnalysisBroken, short, src, walk
-from ..tables import enum_paths
+from ..tables import enum_paths, path_values, resolve_values
 from .. import dual
 
 LRA = 'smt::lra_theory::'
@@ -296,7 +296,9 @@ def r6(ctx, fs, rid='C11.R6'):
             if p.end != 'return':
                 continue
             conds = [(canon(c[1], env, subst=False), c[2]) for c in p.conds if c[0] == 'if']
-            calls = [x for x in _subterms(canon(p.endnode['c'][0], env, subst=False)) if isinstance(x, tuple) and x[0] == 'mcall' and '_theory::new_' in str(x[1])]
+            # the returned expression with the locals of this path resolved (a literal chosen in the arms of an if and returned after it)
+            rt = resolve_values(canon(p.endnode['c'][0], env, subst=False), path_values(p, lambda n: canon(n, env, subst=False)))
+            calls = [x for x in _subterms(rt) if isinstance(x, tuple) and x[0] == 'mcall' and '_theory::new_' in str(x[1])]
             tp = None
             for ct, pol in conds:
                 if 'ratio::TP_KEYWORD' in show(ct) or 'TP_KEYWORD' in show(ct) or "'tp'" in show(ct):
@@ -317,3 +319,6 @@ def run(ctx):
     r4(ctx, fs)
     r5(ctx, fs)
     r6(ctx, fs)
+    # the builders work on smt::lin / rational values (differences, scaling, the sharing key): what a relation literal means rests on the exactness
+    # of that arithmetic (C15), evaluated here under its own rule ids
+    ctx.include('C15')
